@@ -220,6 +220,7 @@ type rewriter struct {
 	sites   []*site
 	base    int
 	usesV   bool
+	keepUsed []string // expressions re-stated at the end of the file so that their imports stay used
 	tmp     int
 }
 
@@ -298,6 +299,9 @@ func (r *rewriter) run() ([]byte, bool) {
 		}
 		at := idx + (pkgEnd - r.off(r.file.Package))
 		body = body[:at] + "; import __vsched \"verif/shim/vsched\"" + body[at:]
+	}
+	for _, e := range r.keepUsed {
+		body += "\nvar _ = " + e + "\n"
 	}
 	return []byte(body), true
 }
@@ -411,6 +415,14 @@ func (r *rewriter) collect() {
 			}
 			r.add(x, func() string { return fn + r.node(x.X) + ")" })
 		case *ast.CallExpr:
+			// runtime.Gosched(): the body of a polling loop must be visible to the scheduler
+			if sel, ok := unparen(x.Fun).(*ast.SelectorExpr); ok && sel.Sel.Name == "Gosched" && len(x.Args) == 0 {
+				if fn, isFn := r.info.Uses[sel.Sel].(*types.Func); isFn && fn.Pkg() != nil && fn.Pkg().Path() == "runtime" {
+					r.usesV = true
+					r.keepUsed = append(r.keepUsed, r.node(sel)) // the import must stay used
+					r.add(x, func() string { return "__vsched.Gosched()" })
+				}
+			}
 			if id, ok := unparen(x.Fun).(*ast.Ident); ok && id.Name == "close" && len(x.Args) == 1 {
 				if _, isBuiltin := r.info.Uses[id].(*types.Builtin); isBuiltin {
 					r.usesV = true
